@@ -1,4 +1,5 @@
 import ScrapliModel.Lemmas.Store
+import ScrapliModel.Lemmas.StoreTimed
 import ScrapliModel.Lemmas.BodiesStore
 import ScrapliModel.Generated.BodiesStore
 /-!
@@ -235,6 +236,45 @@ example : (run .v11 init [.call, .read (f2body.take 37), .read (f2body.drop 37 +
     = [(101, some (f2body.take 37))] := by decide +kernel
 
 /-! ## tie to the source: translated body = model (regenerated on every run) -/
+
+/-! ## histories: per-call deadlines (timed layer, `Netconf/StoreTimed.lean`) -/
+
+/-- every timed history (calls with their own timeouts, reads, polls, time passing during calls
+and while the session idles) is an untimed history in which `expire` happens only when a tick
+reaches the deadline of the call in flight: all theorems above apply to it. -/
+theorem timed_refines (v : Ver) (t : TClient) (evs : List TEv) :
+    (trun v t evs).c = run v t.c (erase v t evs) := trun_refines v evs t
+
+/-- `timeout_is_per_call`: while no call is in flight, the clock and whatever the last timer was
+armed with (expired long ago during an idle period, still pending, never armed) are irrelevant for
+everything that happens afterwards: a call's timeout verdict depends only on events after the call
+started. (`sendRPC` arms a fresh timer per call; nothing of it is carried across calls.) -/
+theorem timeout_is_per_call (v : Ver) (t1 t2 : TClient) (hc : t1.c = t2.c)
+    (hidle : t1.c.pending = none) (evs : List TEv) :
+    (trun v t1 evs).c = (trun v t2 evs).c :=
+  (trun_sameFuture evs t1 t2 ⟨hc, fun hne => absurd hidle hne⟩).1
+
+/-- a call with timeout `d` gets no timeout verdict while fewer than `d` ticks have passed since it
+started — no matter how long the session idled before, how earlier calls ended or what their
+timeouts were. -/
+theorem no_timeout_before_deadline (v : Ver) (t : TClient) (d : Nat) (evs : List TEv)
+    (hidle : t.c.pending = none) (hcalls : noCalls evs = true) (hticks : ticksIn evs < d) :
+    timeouts (trun v t (.call d :: evs)).c = timeouts t.c := by
+  have h := no_timeout_aux (v := v) evs (tstep v t (.call d)) hcalls (by
+    intro _; simp only [tstep, hidle]; omega)
+  simp only [trun, List.foldl_cons] at h ⊢
+  rw [h]
+  simp [tstep, hidle, step, buildRequest, timeouts]
+
+def r10body102 : Bytes := [60, 114, 112, 99, 45, 114, 101, 112, 108, 121, 32, 109, 101, 115, 115, 97, 103, 101, 45, 105, 100, 61, 34, 49, 48, 50, 34, 47, 62, 93, 93, 62, 93, 93, 62]
+
+/-- instance: a successful call with timeout 100, a long idle period (300 ticks, the old timer
+would have fired long ago), then a call with timeout 100 whose reply arrives after 10 ticks: the
+reply is returned, not a timeout; a third call with timeout 5 and no reply times out -/
+example : (trun .v10 tinit ([.call 100] ++ d10.chunks.map .read ++ [.poll] ++ List.replicate 300 .tick ++
+    [.call 100] ++ List.replicate 10 .tick ++ [.read r10body102, .poll] ++ List.replicate 200 .tick ++
+    [.call 5] ++ List.replicate 5 .tick)).c.results.map (fun p => (p.1, p.2.isSome))
+    = [(101, true), (102, true), (103, false)] := by decide +kernel
 
 /-- the body of `getID` as the translator renders it from the current source
 (`Generated/BodiesStore.lean`), on a match of the message-id pattern (whole match + one group of one
